@@ -995,6 +995,87 @@ func runC14(c *Ctx) {
 		c14Execute(c, prog, sc, "random")
 	})
 
+	// 2b. the SvResync gate: a system packet that carries a Job number is only acted on while that Job
+	// is pending (receiveSingle, the consumer of hasJob). Numbers tried: 0 and 1 (never handed out), a
+	// pending one, the neighbours of a pending one, one that was pending and is not any more
+	// (finished / cancelled), a random one.
+	c.Cases("resync", c.N(1500, 20000), func(r *Rng, i int) {
+		s := c2.VerifC14NewSession(8)
+		c2.VerifC14SetSleep(s, 10*time.Second, 5)
+		var pend []uint16
+		for k := r.Intn(5); k > 0; k-- {
+			id := uint16(2 + r.Intn(65534))
+			if r.Chance(20) {
+				id = uint16(2 + r.Intn(4)) // right above the reserved numbers
+			}
+			c2.VerifC14TableSet(s, id)
+			pend = append(pend, id)
+		}
+		gone := uint16(2 + r.Intn(65534))
+		c2.VerifC14TableSet(s, gone)
+		c2.VerifC14TableDel(s, gone)
+		var id uint16
+		switch x := i % 8; {
+		case x == 0:
+			id = 0
+		case x == 1:
+			id = 1
+		case x == 2 && len(pend) > 0:
+			id = pend[r.Intn(len(pend))]
+		case x == 3 && len(pend) > 0:
+			id = pend[r.Intn(len(pend))] + 1
+		case x == 4 && len(pend) > 0:
+			id = pend[r.Intn(len(pend))] - 1
+		case x == 5:
+			id = gone
+		case x == 6 && len(pend) > 0:
+			id = pend[0]
+		default:
+			id = uint16(r.Intn(65536))
+		}
+		q := &com.Packet{ID: c2.SvResync, Job: id, Device: c2.VerifC14Device(s)}
+		q.WriteUint8(c2.VerifC12InfoSync)
+		a := c12Gen(r, false)
+		a.client, a.closing = true, false
+		a.sleep, a.jitter = int64(42*time.Minute), 77
+		if err := a.build().VerifC12Write(c2.VerifC12InfoSync, q); err != nil {
+			return
+		}
+		applied := c2.VerifC14Resync(s, q)
+		isPend := false
+		tab := make([]string, 0, len(pend))
+		for _, p := range pend {
+			tab = append(tab, strconv.Itoa(int(p)))
+			if p == id {
+				isPend = true
+			}
+		}
+		t := strings.Join(tab, ".")
+		if t == "" {
+			t = "-"
+		}
+		ans := "ignored"
+		if applied {
+			ans = "applied"
+		}
+		c.Op(fmt.Sprintf("resync %s %d", t, id), ans)
+		in := map[string]interface{}{"pending": pend, "resync_job": id}
+		switch {
+		case applied && !isPend:
+			k := "other"
+			if id < 2 {
+				k = "reserved-number"
+			} else if id == gone {
+				k = "finished-job"
+			}
+			c.Fail("resync", "resync:unknown-job-applied:"+k, fmt.Sprintf("an SvResync carrying Job number %d, which is not pending, changed the Session's settings", id), in)
+		case !applied && isPend:
+			c.Fail("resync", "resync:pending-job-ignored", fmt.Sprintf("the SvResync of pending Job %d was ignored", id), in)
+		}
+		c.Count(fmt.Sprintf("resync:%s", ans))
+		c.Eval(true, fmt.Sprint("resync", pend, id))
+	})
+
 	// 3. id allocation: real newJobID on a pre-filled table with a scripted PRNG vs the model
 	c.Cases("newid", c.N(1000, 20000), func(r *Rng, i int) {
 		c14NewID(c, r)
